@@ -411,7 +411,7 @@ func concScripts() []*cscript {
 		{name: "want-upgrade", cfg: config{L: 2, R: 0, T: 1}, threads: [][]string{{"r1:hB2!", "r1:bB2"}}, rounds: 2, bq: 1, bt: 2},
 		{name: "two-wants-one-peer", cfg: base, threads: [][]string{{"r1:bA1", "r1:bC3!"}}, rounds: 2, bq: 1, bt: 2},
 		{name: "notify-race", cfg: one, threads: [][]string{{"r1:bC3!"}, {"new:C"}}, rounds: 2, bq: 0, bt: 1},
-		{name: "notify-race-silent", cfg: one, threads: [][]string{{"r1:bC3"}, {"new:C"}}, rounds: 1, bq: 1, bt: 2},
+		{name: "notify-race-silent", cfg: one, threads: [][]string{{"r1:bC3"}, {"new:C"}}, rounds: 1, bq: 1, bt: 1},
 		{name: "overflow-race", cfg: config{L: 1, R: 16, T: 1}, threads: [][]string{{"r1:bA1", "r1:bE4"}}, rounds: 2, bq: 1, bt: 2},
 		{name: "disconnect-race", cfg: one, threads: [][]string{{"r1:bA1"}, {"d1"}}, rounds: 2, bq: 0, bt: 1},
 		{name: "same-cid-two-peers-cancel", cfg: one, threads: [][]string{{"r1:bA1", "r1:xA"}, {"r2:bA1"}}, rounds: 2, bq: 0, bt: 1},
